@@ -335,8 +335,8 @@ func (d *Datastore) Subscribe(req *sdcpb.SubscribeRequest, stream sdcpb.DataServ
 	// start periodic gets, TODO: optimize using cache RPC
 	wg := new(sync.WaitGroup)
 	wg.Add(len(req.GetSubscription()))
-	errCh := make(chan error, 1)
-	doneCh := make(chan struct{})
+	// every goroutine reports at most one error, nobody must block on sending it
+	errCh := make(chan error, len(req.GetSubscription()))
 	for _, subsc := range req.GetSubscription() {
 		go func(subsc *sdcpb.Subscription) {
 			ticker := time.NewTicker(time.Duration(subsc.GetSampleInterval()))
@@ -344,8 +344,6 @@ func (d *Datastore) Subscribe(req *sdcpb.SubscribeRequest, stream sdcpb.DataServ
 			defer wg.Done()
 			for {
 				select {
-				case <-doneCh:
-					return
 				case <-ctx.Done():
 					errCh <- ctx.Err()
 					return
@@ -353,7 +351,8 @@ func (d *Datastore) Subscribe(req *sdcpb.SubscribeRequest, stream sdcpb.DataServ
 					err := d.doSubscribeOnce(ctx, subsc, stream)
 					if err != nil {
 						errCh <- err
-						close(doneCh)
+						// stop the other subscriptions, cancel can be called multiple times
+						cancel()
 						return
 					}
 				}
